@@ -33,14 +33,14 @@ type Call struct {
 	E  []int  `json:"e,omitempty"` // Element argument slots (ExtendedCoordinates: destinations)
 	// byte input: literal B, or a nil slice, or the very slice returned earlier
 	// (ledger entry BL-1)
-	HasB bool   `json:"hasb,omitempty"`
-	B    Hex    `json:"b,omitempty"`
-	BNil bool   `json:"bnil,omitempty"`
-	BL   int    `json:"bl,omitempty"`
+	HasB bool `json:"hasb,omitempty"`
+	B    Hex  `json:"b,omitempty"`
+	BNil bool `json:"bnil,omitempty"`
+	BL   int  `json:"bl,omitempty"`
 	// the literal input is a sub-slice backing[BOff : BOff+len(B)] of a larger
 	// caller buffer with BPad spare bytes of capacity behind it
-	BOff int `json:"boff,omitempty"`
-	BPad int `json:"bpad,omitempty"`
+	BOff int    `json:"boff,omitempty"`
+	BPad int    `json:"bpad,omitempty"`
 	U    uint32 `json:"u,omitempty"`
 	C    int    `json:"c,omitempty"`
 	// pseudo-operations
@@ -74,7 +74,7 @@ type Trace struct {
 	// from a cold process, i.e. when it depends on package state left behind
 	// by earlier calls.
 	Prelude []*Trace `json:"prelude,omitempty"`
-	Note      string     `json:"note,omitempty"`
+	Note    string   `json:"note,omitempty"`
 }
 
 // Opts are the oracle switches of a run that are not derivable from Prop.
